@@ -61,6 +61,7 @@ func (p *Processor[K, T]) Enqueue(r T) {
 	if p.stopped.Load() {
 		return
 	}
+	verifhook.Point("queue.enqueue.afterStoppedCheck", r)
 
 	// Insert or replace the item in the queue
 	// If the item added or replaced is the first one in the queue, we need to know that
